@@ -74,3 +74,6 @@ SPEC['rule'] += (' Added after the seeded-change rounds: ' +
     'Decodes kept alive and run concurrently (results depend on the input alone); multi-label IDN domains around the 63-byte label limit; the Host header is compared after the AMP-cache rewrite; the size bound is applied to the decoded body, not to the encoded path.')
 
 SPEC['thorough_passes'] = 6  # the thorough tier runs the whole harness under this many consecutive seeds
+
+SPEC['rule'] += (' ' +
+    'Added after rounds four and five: transports whose first attempts fail below HTTP (every attempt made must go to the front); fronts that answer 301/302/307 with a Location (reported as non-200, the target is never contacted); fixed domains with Punycode labels in every position and an independent re-statement of the basic prefix algorithm; conditional and range headers on AMP GET requests.')
